@@ -32,6 +32,7 @@ inductive Err where
   | assertion    -- AssertionError
   | indexError   -- IndexError / KeyError
   | structure    -- the two layouts do not have the same (dim, depth) structure: outside the model
+  | notImplemented  -- NotImplementedError ("This memref layout type is not handled yet.")
   | fuel
 deriving DecidableEq, Repr, Inhabited
 
@@ -39,10 +40,11 @@ inductive Layout where
   | none
   | strided (strides : List (Option Nat)) (offset : Option Nat)
   | tsl (t : Tsl)
+  | other        -- any other layout attribute (e.g. an affine map)
 deriving DecidableEq, Repr, Inhabited
 
-/-- memref type: shape (`none` = dynamic `?`), element size in bytes (`FixedBitwidthType.size`),
-whether the element type is an `IntegerType`, layout. -/
+/-- memref type: shape (`none` = dynamic `?`), element size in bytes (`FixedBitwidthType.size`; 0 stands for an
+element type that is not a `FixedBitwidthType`, i.e. `index`), whether the element type is an `IntegerType`, layout. -/
 structure MemTy where
   shape : List (Option Nat)
   el : Nat
@@ -97,6 +99,7 @@ def extractStrides (t : MemTy) : Option (List (Option Nat)) :=
   | .strided s _ => some s
   | .none => some (rowMajor t.shape.tail)
   | .tsl _ => none
+  | .other => none
 
 def extractOffset (t : MemTy) : Option Nat :=
   match t.layout with
@@ -113,6 +116,7 @@ def shapeTileBounds (shape : List (Option Nat)) : List (List (Option Nat)) :=
 def tslOf (t other : MemTy) (srcShape : List (Option Nat)) : Except Err Tsl :=
   match t.layout with
   | .tsl l => .ok l
+  | .other => .error .notImplemented
   | _ =>
     match extractStrides t with
     | none => .error .noMatch
@@ -322,6 +326,17 @@ that are not members, in order. -/
 def remainingByKey (lcb : List Stride) (rest : List Entry) : List Entry :=
   rest.filter fun e => !unitCovered lcb e
 
+/-- step 6.2, literally: the innermost `scf.for` runs to `upper[-1]`; then for `i = 0 .. n-2` the nest so far is
+wrapped into a loop to `upper[n - 2 - i]`. The nest is represented by its trip counts, outermost first. -/
+def wrapLoops (upper : List Nat) : List Nat :=
+  (List.range (upper.length - 1)).foldl (fun nest i => upper.getD (upper.length - 2 - i) 0 :: nest) [upper.getLastD 0]
+
+/-- steps 5/6: no loop at all if nothing remains after the 2-D repeat dimension; otherwise the nest of step 6.2 and,
+step 6.3, the `i`-th loop from outside advances the pointers by the steps of `remaining_strides_list[i]`. -/
+def buildLoops (rest : List Entry) : List (Nat × Nat × Nat) :=
+  if rest.isEmpty then []
+  else List.zipWith (fun b (e : Entry) => (b, e.sstep, e.dstep)) (wrapLoops (rest.map (·.bound))) rest
+
 /-- steps 4–6 given the remaining strides (dims ascending, depths ascending), the LCB, the pointers after
 offset application and the total size in bytes. -/
 def build (el sbase dbase total : Nat) (lcb : List Stride) (rem : List Entry) : Except Err DmaProg :=
@@ -333,7 +348,7 @@ def build (el sbase dbase total : Nat) (lcb : List Stride) (rem : List Entry) : 
     | some last =>
       match last.bound, last.step with
       | some lb, some ls =>
-        .ok ⟨sbase, dbase, rest.map Entry.triple, .twoD (lb * ls * el) h.sstep h.dstep h.bound⟩
+        .ok ⟨sbase, dbase, buildLoops rest, .twoD (lb * ls * el) h.sstep h.dstep h.bound⟩
       | _, _ => .error .assertion
 
 /-! ### resolution of both layouts against the descriptors -/
@@ -403,9 +418,12 @@ def transformDma (byValue : Bool) (src dst : MemTy) (rs rd : Rt) : Except Err Lo
 
 /-- `MatchSimpleCopy`: both layouts absent → one 1-D transfer of `Π dims · element size` bytes. -/
 def simpleCopy (src dst : MemTy) (rs rd : Rt) : Except Err DmaProg :=
+  -- `assert isa(op.source.type, MemRefType[FixedBitwidthType])` comes before the layout test
+  if src.el == 0 then .error .assertion else
   match src.layout, dst.layout with
   | .none, .none =>
-    if src.shape != dst.shape || src.el != dst.el || src.isInt != dst.isInt then .error .assertion
+    -- rank 0: `assert total_size_op is not None` in get_total_size_op
+    if src.shape != dst.shape || src.el != dst.el || src.isInt != dst.isInt || src.shape.isEmpty then .error .assertion
     else .ok ⟨rs.base, rd.base, [], .oneD (totalBytes rs.shape src.el)⟩
   | _, _ => .error .noMatch
 
